@@ -13,6 +13,7 @@ import (
 
 	mail "github.com/wneessen/go-mail"
 	mlog "github.com/wneessen/go-mail/log"
+	"github.com/wneessen/go-mail/smtp"
 
 	"verif/sim/refsmtpd"
 	"verif/sim/sim"
@@ -36,6 +37,10 @@ type C16Scenario struct {
 	Script string          `json:"script"`
 	Conn   sim.ConnFaults  `json:"conn,omitempty"`
 	Sched  uint64          `json:"sched"`
+	// Direct: the smtp package is driven directly — Auth is refused locally by the mechanism
+	// (unencrypted connection or wrong host name), the server does not honour the QUIT that
+	// follows, and the caller goes on using the connection. What follows must be logged normally.
+	Direct string `json:"direct,omitempty"` // "" | unencrypted | wronghost
 }
 
 type c16 struct{}
@@ -72,6 +77,13 @@ func (p *c16) Gen(seed uint64, i int, tier string) (any, bool) {
 		return nil, false
 	}
 	r := sim.NewRand(sim.Derive(seed, 16, uint64(i)))
+	if i%23 == 22 {
+		sc := &C16Scenario{Script: "direct", Sched: sim.Derive(seed, 16, uint64(i), 1), Direct: sim.Pick(r, []string{"unencrypted", "wronghost"})}
+		sc.Client = ClientCfg{User: genSecret(r, "U"), Pass: genSecret(r, "P"), AuthType: sim.Pick(r, []string{"PLAIN", "LOGIN"}), Logger: sim.Pick(r, []string{"capture", "std", "json"}), Debug: true}
+		sc.Server.Caps = []string{"8BITMIME", authCaps(allMechs...)}
+		sc.Server.Rules = []refsmtpd.Rule{{Verb: "QUIT", Nth: 1, Action: refsmtpd.Action{Code: sim.Pick(r, []int{502, 421, 250}), Text: "not now"}}}
+		return sc, true
+	}
 	mech := c16Mechs[i%len(c16Mechs)]
 	script := c16Scripts[(i/len(c16Mechs))%len(c16Scripts)]
 	user, pass := genSecret(r, "U"), genSecret(r, "P")
@@ -130,6 +142,9 @@ func secretForms(pass string) map[string]string {
 
 func (p *c16) Exec(t *testing.T, scAny any) Outcome {
 	sc := scAny.(*C16Scenario)
+	if sc.Direct != "" {
+		return p.execDirect(t, sc)
+	}
 	var out Outcome
 	capture := &CaptureLogger{}
 	var buf bytes.Buffer
@@ -332,7 +347,7 @@ func (p *c16) Shrink(scAny any) []any {
 
 func (p *c16) Info() PropInfo {
 	return PropInfo{
-		Rule: "seeded search, round-robin over 13 auth types x 17 scripts {the transport refuses the client's 2nd/3rd/4th write (the AUTH line and the SASL responses on a plain connection), success (x2), 535 to AUTH / to the 1st/2nd/3rd response, wrong stored password, malformed base64 challenge, unexpected extra challenge, disconnect at AUTH / 1st / 2nd response, silent stall at AUTH / 1st response until the timeout} x logger kind {capturing log.Logger, Stdlog, JSONlog} with high-entropy generated credentials (some with = , blank + / non-ASCII < > \" %); every 17th run is the control group with WithLogAuthData on; non-trivial = an AUTH command reached the server; distinct = distinct (auth type, mechanism used, script, logger, control group, outcome)",
+		Rule: "seeded search, round-robin over 13 auth types x 17 scripts {the transport refuses the client's 2nd/3rd/4th write (the AUTH line and the SASL responses on a plain connection), success (x2), 535 to AUTH / to the 1st/2nd/3rd response, wrong stored password, malformed base64 challenge, unexpected extra challenge, disconnect at AUTH / 1st / 2nd response, silent stall at AUTH / 1st response until the timeout} x logger kind {capturing log.Logger, Stdlog, JSONlog} with high-entropy generated credentials (some with = , blank + / non-ASCII < > \" %); every 17th run is the control group with WithLogAuthData on; every 23rd run drives the smtp package directly (Auth refused locally by PLAIN/LOGIN, QUIT not honoured by the server, NOOP and MAIL follow on the same connection and must be logged verbatim); non-trivial = an AUTH command reached the server; distinct = distinct (auth type, mechanism used, script, logger, control group, outcome)",
 		Assumptions: []string{"searched forms of the secret: raw, base64 (padded and unpadded), base64url, hex (both cases), plus the PLAIN/XOAUTH2 initial responses and the LOGIN password line exactly as the server received them; for JSONlog also every decoded string field",
 			"CRAM-MD5 digests and SCRAM proofs are not required to be absent (they do not carry the password; the statement does not demand it)"},
 		Real:        []string{"go-mail smtp.Client (cmd/Auth redaction window), Client debug-log plumbing, log.Stdlog, log.JSONlog, all SASL mechanisms", "crypto/tls where the mechanism needs it"},
@@ -340,4 +355,89 @@ func (p *c16) Info() PropInfo {
 		Exhaustive:  func(string) bool { return false },
 		QuickBudget: 100 * time.Second, ThoroughBudget: 25 * time.Minute,
 	}
+}
+
+// execDirect: see C16Scenario.Direct.
+func (p *c16) execDirect(t *testing.T, sc *C16Scenario) Outcome {
+	var out Outcome
+	capture := &CaptureLogger{}
+	var buf bytes.Buffer
+	var logger mlog.Logger = capture
+	switch sc.Client.Logger {
+	case "std":
+		logger = mlog.New(&buf, mlog.LevelDebug)
+	case "json":
+		logger = mlog.NewJSON(&buf, mlog.LevelDebug)
+	}
+	var env *NetEnv
+	var authErr error
+	ran := false
+	res := RunSim(t, sc.Sched, sim.Policy{Kind: "random"}, 0, time.Hour, func(k *sim.Kernel) (func(), func()) {
+		env = &NetEnv{K: k, Srv: refsmtpd.New(k, sc.Server, TLSMat)}
+		return func() {
+			conn, _ := env.Dial(context.Background(), "tcp", "mx.sim.example:25")
+			c, err := smtp.NewClient(conn, "mx.sim.example")
+			if err != nil {
+				return
+			}
+			c.SetLogger(logger)
+			c.SetDebugLog(true)
+			if err := c.Hello("client.sim.example"); err != nil {
+				return
+			}
+			host := "mx.sim.example"
+			if sc.Direct == "wronghost" {
+				host = "some.other.host.example"
+			}
+			var a smtp.Auth = smtp.PlainAuth("", sc.Client.User, sc.Client.Pass, host, sc.Direct == "wronghost")
+			if sc.Client.AuthType == "LOGIN" {
+				a = smtp.LoginAuth(sc.Client.User, sc.Client.Pass, host, sc.Direct == "wronghost")
+			}
+			authErr = c.Auth(a)
+			_ = c.Noop()
+			_ = c.Mail("sender-afterauth@origin.example")
+			ran = true
+			_ = c.Close()
+		}, env.Freeze
+	})
+	out.SimNs, out.Steps, out.Digest = res.VirtualNs, res.Steps, res.Digest
+	if res.BubbleErr != "" {
+		out.Infra = "bubble: " + res.BubbleErr
+		return out
+	}
+	if !ran {
+		out.stat("not-judged.direct-run-did-not-complete", 1)
+		return out
+	}
+	var texts []string
+	for _, r := range capture.Records {
+		texts = append(texts, r.Text)
+	}
+	texts = append(texts, buf.String())
+	all := strings.Join(texts, "\n")
+	if authErr == nil {
+		out.Infra = "the mechanism was expected to refuse locally, but Auth returned nil"
+		return out
+	}
+	for k, v := range secretForms(sc.Client.Pass) {
+		if strings.Contains(all, v) {
+			out.violate("C16:leak:password:"+k, "smtp package used directly, Auth refused locally (%v): the log contains the password (%s form)", authErr, k)
+		}
+	}
+	sawNoop, sawMail := false, false
+	for _, e := range env.Srv.H.Events {
+		if e.Kind == "cmd" && e.Verb == "NOOP" {
+			sawNoop = true
+		}
+		if e.Kind == "cmd" && e.Verb == "MAIL" {
+			sawMail = true
+		}
+	}
+	if sawNoop && !strings.Contains(all, "NOOP") || sawMail && !strings.Contains(all, "MAIL FROM:<sender-afterauth@origin.example>") {
+		out.violate("C16:window-not-closed:after-local-refusal", "Auth was refused locally by the mechanism (%v) and the connection stayed usable; the NOOP/MAIL that followed reached the server but are not in the log verbatim (log tail: %q)", authErr, clipStr(tailStr(all, 300), 300))
+	}
+	out.stat("runs.smtp-direct", 1)
+	out.Key = fmt.Sprintf("direct|%s|%s|%s|%v", sc.Direct, sc.Client.AuthType, sc.Client.Logger, sc.Server.Rules[0].Code)
+	out.Nontrivial = sawNoop || sawMail
+	return out
 }
